@@ -880,3 +880,18 @@ Theorem key_scheme_roundtrip (name : String.string) :
 Proof.
   intros H. unfold parse_key. simpl. rewrite (split_on_no_char _ _ H). split; reflexivity.
 Qed.
+
+Lemma split_on_max_0 c s : split_on_max c 0 s = [s].
+Proof. destruct s; reflexivity. Qed.
+
+(* with at most two splits EVERY tag name (also one containing ':') is read back unchanged *)
+Theorem key_scheme_roundtrip_all (name : String.string) :
+  parse_key2 (String.append "skfem:s:"%string name) = ("skfem"%string, "s"%string, name) /\
+  parse_key2 (String.append "skfem:b:"%string name) = ("skfem"%string, "b"%string, name).
+Proof.
+  unfold parse_key2. split.
+  - change (split_on_max colon 2 ("skfem:s:" ++ name)) with ("skfem"%string :: "s"%string :: split_on_max colon 0 name).
+    rewrite split_on_max_0. reflexivity.
+  - change (split_on_max colon 2 ("skfem:b:" ++ name)) with ("skfem"%string :: "b"%string :: split_on_max colon 0 name).
+    rewrite split_on_max_0. reflexivity.
+Qed.
